@@ -220,13 +220,19 @@ fn main() {
     run.assume("a name holding a control character, a blank or a quote may be rejected or accepted (if accepted, all value clauses apply); reference normaliser mc/core/src/model/pkgpath.rs; pattern validity from the composed pattern model");
 
     let n = run.pick(6, 8);
-    run.bound(format!("all {} segment sequences of <= {} segments x {{relative, leading '/'}}", seqs::count(SEG.len(), n), n));
+    run.bound(format!("all {} segment sequences of <= {} segments x {{relative, leading '/'}}; those of <= 6 segments also as the path half of a dependency", seqs::count(SEG.len(), n), n));
     seqs::par_seqs(&run, "C19 paths", SEG.len(), n, 2, |_| false, |s, t| {
         let joined: Vec<&str> = s.iter().map(|i| SEG[*i]).collect();
         let p = joined.join("/");
         check_path(t, &p);
         t.transitions += 1;
         check_path(t, &format!("/{}", p));
+        // every such path also as the path half of a dependency (accepted exactly when the path is)
+        if s.len() <= 6 {
+            t.transitions += 2;
+            check_depend(t, "p-[0-9]*", &p, &[0, 1, 0]);
+            check_depend(t, "p>=1", &format!("/{}", p), &[0, 1, 0]);
+        }
         t.sample(run.seed, s.iter().fold(1u64, |a, x| a * 7 + *x as u64), || json!({"path": p}));
     });
     let mut t = Tally::new();
